@@ -2,8 +2,9 @@
 //
 // Each scenario mirrors one configuration (same name, same thread numbering: T0 = scenario body,
 // T1, T2 … = spawned in that order) of
-//   lean/UnifexModel/Proto/ScopeV2.lean   (scenarios v2_*)
-//   lean/UnifexModel/Proto/ScopeV1.lean   (scenarios v1_* and v0_*)
+//   lean/UnifexModel/Proto/ScopeV2.lean   (scenarios v2_*, driver model "scopev2")
+//   lean/UnifexModel/Proto/ScopeV1.lean   (scenarios v1_*, driver model "scopev1")
+//   lean/UnifexModel/Proto/ScopeV0.lean   (scenarios v0_*, driver model "scopev0")
 //
 // Nested work is a manually completed leaf sender written here: its operation registers itself in
 // the World when started and is completed later by whichever thread calls `w.fire(i)`.
@@ -307,7 +308,6 @@ struct World {
     for (int i = 0; i < b.N; ++i) {
       if (b.started[i] && !b.fired[i]) rt::fail("join%d completed while op%d (admitted and started) has not completed", j, i);
       if (b.started[i] && b.has_outer[i] && !b.finished[i]) rt::fail("join%d completed before the nest sender of op%d delivered its completion", j, i);
-      if (b.nest_begun[i] && b.spawn_returned[i] && false) {}
     }
     b.close_known = true;
     rt::obs("join%d.done", j);
